@@ -126,4 +126,92 @@ theorem equalRun_eq {κ α : Type} (cmp : κ → α → Int) (key : κ) (a : Lis
   rw [h1, h2]
   congr 1 <;> omega
 
+/-! ### the lexicographic order of the canonical form is a total order -/
+
+section lex
+variable {α : Type}
+
+theorem lexLe_iff (cmp : α → α → Int) (le : α → α → Bool) (x y : α) :
+    lexLe cmp le x y = true ↔ cmp x y < 0 ∨ (cmp x y = 0 ∧ le x y = true) := by
+  unfold lexLe; simp
+
+theorem cons_zero_symm (cmp : α → α → Int) (hc : Consistent cmp) (x y : α) (h0 : cmp x y = 0) : cmp y x = 0 := by
+  have h1 := hc.anti x y; have h2 := hc.anti y x
+  omega
+
+theorem cons_lt_le (cmp : α → α → Int) (hc : Consistent cmp) (x y z : α) (h1 : cmp x y < 0) (h2 : cmp y z ≤ 0) :
+    cmp x z < 0 := by
+  have t := hc.trans x y z (by omega) h2
+  by_cases h0 : cmp x z = 0
+  · have := cons_zero_symm cmp hc x z h0
+    have := hc.trans y z x h2 (by omega)
+    have := (hc.anti x y).1 h1
+    omega
+  · omega
+
+theorem cons_le_lt (cmp : α → α → Int) (hc : Consistent cmp) (x y z : α) (h1 : cmp x y ≤ 0) (h2 : cmp y z < 0) :
+    cmp x z < 0 := by
+  have t := hc.trans x y z h1 (by omega)
+  by_cases h0 : cmp x z = 0
+  · have := cons_zero_symm cmp hc x z h0
+    have := hc.trans z x y (by omega) h1
+    have := (hc.anti y z).1 h2
+    omega
+  · omega
+
+theorem lexLe_trans (cmp : α → α → Int) (hc : Consistent cmp) (le : α → α → Bool)
+    (htr : ∀ x y z, le x y = true → le y z = true → le x z = true) (x y z : α)
+    (h1 : lexLe cmp le x y = true) (h2 : lexLe cmp le y z = true) : lexLe cmp le x z = true := by
+  rw [lexLe_iff] at *
+  rcases h1 with h1 | ⟨h1, l1⟩ <;> rcases h2 with h2 | ⟨h2, l2⟩
+  · exact Or.inl (cons_lt_le cmp hc x y z h1 (by omega))
+  · exact Or.inl (cons_lt_le cmp hc x y z h1 (by omega))
+  · exact Or.inl (cons_le_lt cmp hc x y z (by omega) h2)
+  · right
+    refine ⟨?_, htr x y z l1 l2⟩
+    have a1 := hc.trans x y z (by omega) (by omega)
+    have := cons_zero_symm cmp hc x y h1
+    have := cons_zero_symm cmp hc y z h2
+    have a2 := hc.trans z y x (by omega) (by omega)
+    have := hc.anti x z
+    omega
+
+theorem lexLe_total (cmp : α → α → Int) (hc : Consistent cmp) (le : α → α → Bool)
+    (htot : ∀ x y, (le x y || le y x) = true) (x y : α) : (lexLe cmp le x y || lexLe cmp le y x) = true := by
+  rw [Bool.or_eq_true, lexLe_iff, lexLe_iff]
+  rcases Int.lt_trichotomy (cmp x y) 0 with h | h | h
+  · exact Or.inl (Or.inl h)
+  · have := htot x y
+    rw [Bool.or_eq_true] at this
+    rcases this with l | l
+    · exact Or.inl (Or.inr ⟨h, l⟩)
+    · exact Or.inr (Or.inr ⟨cons_zero_symm cmp hc x y h, l⟩)
+  · exact Or.inr (Or.inl ((hc.anti y x).2 h))
+
+theorem lexLe_antisymm (cmp : α → α → Int) (hc : Consistent cmp) (le : α → α → Bool)
+    (has : ∀ x y, le x y = true → le y x = true → x = y) (x y : α)
+    (h1 : lexLe cmp le x y = true) (h2 : lexLe cmp le y x = true) : x = y := by
+  rw [lexLe_iff] at *
+  have a1 := hc.anti x y
+  have a2 := hc.anti y x
+  rcases h1 with h1 | ⟨h1, l1⟩ <;> rcases h2 with h2 | ⟨h2, l2⟩
+  · omega
+  · omega
+  · omega
+  · exact has x y l1 l2
+
+/-- two permutations of one list have the same canonical form -/
+theorem canonLex_perm (cmp : α → α → Int) (hc : Consistent cmp) (le : α → α → Bool)
+    (htot : ∀ x y, (le x y || le y x) = true) (htr : ∀ x y z, le x y = true → le y z = true → le x z = true)
+    (has : ∀ x y, le x y = true → le y x = true → x = y) (l₁ l₂ : List α) (hp : l₁.Perm l₂) :
+    canonLex cmp le l₁ = canonLex cmp le l₂ := by
+  unfold canonLex
+  apply List.Perm.eq_of_pairwise (le := fun x y => lexLe cmp le x y = true)
+  · intro x y _ _ h1 h2; exact lexLe_antisymm cmp hc le has x y h1 h2
+  · exact List.pairwise_mergeSort (lexLe_trans cmp hc le htr) (lexLe_total cmp hc le htot) l₁
+  · exact List.pairwise_mergeSort (lexLe_trans cmp hc le htr) (lexLe_total cmp hc le htot) l₂
+  · exact (List.mergeSort_perm l₁ _).trans (hp.trans (List.mergeSort_perm l₂ _).symm)
+
+end lex
+
 end Igris.C11
